@@ -256,6 +256,7 @@ func workerMain(args []string) int {
 	if wd == 0 {
 		wd = 900
 	}
+	ResetRunClock = func() { runStart.Store(time.Now().Unix()) }
 	go func() {
 		for {
 			time.Sleep(2 * time.Second)
